@@ -71,6 +71,8 @@ def run_one(m, pid):
         if rule and not any(f" {rule} in " in l or l.split(": ", 1)[1].startswith(rule + " ") for l in lines):
             return (m["id"], "FAIL", f"detected but not by rule {rule}: {lines[:3]}")
         frag = m.get("names")
+        if isinstance(frag, dict):
+            frag = frag.get(pid)
         if frag and not any(frag in l for l in lines):
             return (m["id"], "FAIL", f"report does not name `{frag}`: {lines[:3]}")
         return (m["id"], "ok", lines[0][:160] if lines else "")
